@@ -227,6 +227,8 @@ class Weaver:
         """
         self.x = self.original_x.copy()
         self.y = self.original_y.copy()
+        self.reference_x = self.original_x.copy()
+        self.reference_y = self.original_y.copy()
         return self
 
     def append_one_sample(self, make_periodic=False):
